@@ -47,8 +47,8 @@ func init() { hx.Register("C15", runC15) }
 
 type c15case struct {
 	Seed int64  `json:"seed"`
-	Mode string `json:"mode"` // shadow | chain
-	N    int    `json:"n"`    // number of generated transactions
+	Mode string `json:"mode"`          // shadow | chain | fuzz | congest
+	N    int    `json:"n"`             // number of generated transactions
 	Fpg  string `json:"fpg,omitempty"` // shadow mode: overwrite FeePerGas of both check states (decimal)
 }
 
@@ -62,6 +62,7 @@ type acct struct {
 	Nonce  uint32
 	Epoch  uint16
 	Store  [][2]string // sorted by key
+	Order  [][2]string // in the order StateDB.IterateContractStore yields (what EnvImp.Iterate's second phase follows)
 }
 
 func snapAcct(st *state.StateDB, a common.Address, codes *codetab) acct {
@@ -69,9 +70,6 @@ func snapAcct(st *state.StateDB, a common.Address, codes *codetab) acct {
 	if h := st.GetCodeHash(a); h != nil {
 		r.HasCon = true
 		r.Code = codes.id(*h)
-		if *h == (common.Hash{}) {
-			r.Code = 0
-		}
 		if s := st.GetContractStake(a); s != nil {
 			r.Stake = new(big.Int).Set(s)
 		}
@@ -80,6 +78,7 @@ func snapAcct(st *state.StateDB, a common.Address, codes *codetab) acct {
 		r.Store = append(r.Store, [2]string{hx0(k), hx0(v)})
 		return false
 	})
+	r.Order = append([][2]string{}, r.Store...)
 	sort.Slice(r.Store, func(i, j int) bool { return r.Store[i][0] < r.Store[j][0] })
 	return r
 }
@@ -89,6 +88,14 @@ func (a acct) stake0() *big.Int {
 		return new(big.Int)
 	}
 	return a.Stake
+}
+
+// stakeTok: a nil stake pointer (wasm contracts) is not a zero stake for MoveToStake
+func (a acct) stakeTok() string {
+	if a.Stake == nil {
+		return "nil"
+	}
+	return a.Stake.String()
 }
 
 func (a acct) conStr() string {
@@ -152,38 +159,44 @@ func (r *recVM) Run(tx *types.Transaction, from *common.Address, gasLimit int64,
 				t.gas = impl.C15GasUsed
 			}
 		},
-		OnDeploy: func(ctx env.CallContext, do func()) {
-			op := fmt.Sprintf("deploy %d %s %d", t.ids.id(ctx.ContractAddr()), bigs(ctx.PayAmount()), t.codes.id(ctx.CodeHash()))
-			defer t.guard(op)
-			do()
-			t.add(op, "ok")
-		},
-		OnTerminate: func(ctx env.CallContext, keep [][]byte, dest common.Address, do func()) {
-			ks := make([]string, len(keep))
-			for i, k := range keep {
-				ks[i] = hx0(k)
-			}
-			op := fmt.Sprintf("terminate %d %d %s", t.ids.id(ctx.ContractAddr()), t.ids.id(dest), strings.Join(append([]string{"k"}, ks...), ","))
-			defer t.guard(op)
-			do()
-			t.add(op, "ok")
-		},
-		OnCommit: func(do func()) {
-			op := "commit"
-			if t.wasm {
-				op = "1 commit"
-			}
-			defer t.guard(op)
-			do()
-			t.add(op, "ok")
-		},
-		OnPanic: func(interface{}) {},
+		OnDeploy:    t.recDeploy,
+		OnTerminate: t.recTerminate,
+		OnCommit:    t.recCommit,
+		OnPanic:     func(interface{}) {},
 	}
 	rc := impl.C15Run(tx, from, gasLimit, commit, h)
 	if r.run.wasm {
 		r.run.rawGas = wasm.C15RawGas
 	}
 	return rc
+}
+
+func (t *trace) recDeploy(ctx env.CallContext, do func()) {
+	op := fmt.Sprintf("deploy %d %s %d", t.ids.id(ctx.ContractAddr()), bigs(ctx.PayAmount()), t.codes.id(ctx.CodeHash()))
+	defer t.guard(op)
+	do()
+	t.add(op, "ok")
+}
+
+func (t *trace) recTerminate(ctx env.CallContext, keep [][]byte, dest common.Address, do func()) {
+	ks := make([]string, len(keep))
+	for i, k := range keep {
+		ks[i] = hx0(k)
+	}
+	op := fmt.Sprintf("terminate %d %d %s", t.ids.id(ctx.ContractAddr()), t.ids.id(dest), strings.Join(append([]string{"k"}, ks...), ","))
+	defer t.guard(op)
+	do()
+	t.add(op, "ok")
+}
+
+func (t *trace) recCommit(do func()) {
+	op := "commit"
+	if t.wasm {
+		op = "1 commit"
+	}
+	defer t.guard(op)
+	do()
+	t.add(op, "ok")
 }
 
 // ------------------------------------------------------------------------------------------ one transaction
@@ -262,9 +275,9 @@ func emit(c *hx.Ctx, mode string, ti txInfo, run *txRun, ids *idtab, pre, post [
 		id := i + 1
 		c.Line(fmt.Sprintf("i bal %d %s", id, a.Bal), "ok")
 		if a.HasCon {
-			c.Line(fmt.Sprintf("i con %d %s %d", id, a.stake0(), a.Code), "ok")
+			c.Line(fmt.Sprintf("i con %d %s %d", id, a.stakeTok(), a.Code), "ok")
 		}
-		for _, kv := range a.Store {
+		for _, kv := range a.Order {
 			c.Line(fmt.Sprintf("i st %d %s %s", id, kv[0], kv[1]), "ok")
 		}
 	}
@@ -398,7 +411,7 @@ func burnsOf(tr *trace, pre []acct) *big.Int {
 func runC15(c *hx.Ctx) error {
 	defer os.RemoveAll("./testdata")
 	defer os.RemoveAll("./testdata2")
-	c.Rep.Rule = "per case a real 100+ identity chain; generated deploy/call/terminate (+funding sends) over all 5 embedded contract types (valid lifecycles and arbitrary methods / argument vectors) and the 5 bundled wasm contracts (cross-contract calls, sub-deployments), arbitrary maxFee (gas limits incl. too small), pay amounts, tips; shadow mode (two check states, untouched Run vs recording Run) and chain mode (single-tx blocks through pool/propose/add)"
+	c.Rep.Rule = "per case a real 100+ identity chain; generated deploy/call/terminate (+funding sends) over all 5 embedded contract types (valid lifecycles and arbitrary methods / argument vectors) and the 5 bundled wasm contracts (cross-contract calls, sub-deployments), arbitrary maxFee (gas limits incl. too small), pay amounts, tips; shadow mode (two check states, untouched Run vs recording Run), chain mode (single-tx blocks through pool/propose/add), fuzz mode (synthetic call traces on the real EnvImp / WasmEnv objects), congest mode (fee per gas driven above 2e16 by real full blocks, then calls whose maxFee leaves just under one gas unit)"
 	var cases []c15case
 	if c.Replay != "" {
 		b, err := os.ReadFile(c.Replay)
@@ -419,6 +432,12 @@ func runC15(c *hx.Ctx) error {
 		}
 		for i := 0; i < nChain; i++ {
 			cases = append(cases, c15case{Seed: c.Rng.Int63(), Mode: "chain", N: c.Scale(40, 120)})
+		}
+		for i := 0; i < c.Scale(1, 10); i++ {
+			cases = append(cases, c15case{Seed: c.Rng.Int63(), Mode: "fuzz", N: c.Scale(1200, 4000)})
+		}
+		for i := 0; i < c.Scale(1, 4); i++ {
+			cases = append(cases, c15case{Seed: c.Rng.Int63(), Mode: "congest", N: 4})
 		}
 	}
 	for _, cs := range cases {
@@ -477,6 +496,9 @@ func runCase(c *hx.Ctx, cs c15case) error {
 	if cs.Mode == "chain" {
 		return cc.runChain(step)
 	}
+	if cs.Mode == "fuzz" {
+		return cc.runFuzz()
+	}
 	return cc.runShadow()
 }
 
@@ -502,12 +524,12 @@ func (cc *caseCtx) runShadow() error {
 	hh, tt := height+1, n.Chain.Head.Time()+20
 	for cc.idx = 0; cc.idx < cc.cs.N && !cc.bad; cc.idx++ {
 		// fabricated header: heights / times jump so that deadlines and voting periods are reachable
-		switch cc.r.Intn(8) {
-		case 0:
+		switch cc.r.Intn(40) {
+		case 0, 1, 2, 3:
 			hh += uint64(1 + cc.r.Intn(4))
-		case 1:
+		case 4:
 			hh += uint64(100 + cc.r.Intn(200))
-		case 2:
+		case 5, 6, 7:
 			tt += int64(cc.r.Intn(5000))
 		}
 		hh += 1 + cc.g.jump
@@ -567,14 +589,15 @@ func (cc *caseCtx) oneShadow(A, B *appstate.AppState, hdr *types.Header, ti txIn
 		post[i] = snapAcct(A.State, a, cc.codes)
 		postB[i] = snapAcct(B.State, a, cc.codes)
 	}
+	// the untouched path is what is judged (oracle) and what the model has to predict (answers); a divergence of the
+	// recording path is reported, the rest still runs on the untouched path's result
 	if rcStr(ap) != rcStr(bp) {
 		cc.fail("C15:recorder-diverges", fmt.Sprintf("%s: untouched Run %s vs recording Run %s", ti.Desc, rcStr(ap), rcStr(bp)))
-		return
 	}
 	for i := range post {
 		if !post[i].equal(postB[i]) {
 			cc.fail("C15:recorder-diverges", fmt.Sprintf("%s: address #%d after untouched Run %s vs recording Run %s", ti.Desc, i+1, post[i], postB[i]))
-			return
+			break
 		}
 	}
 	if ap.err != "" {
@@ -587,6 +610,13 @@ func (cc *caseCtx) oneShadow(A, B *appstate.AppState, hdr *types.Header, ti txIn
 	oracle(cc.fail, ti, ids, pre, post, ap, txFee, fpg, burnsOf(run.tr, pre), "shadow")
 	cc.g.applied(ti, ap, A)
 	c.Rep.Evaluations++
+	if ti.Desc == "deploy-wasm-wallet" && ap.rc != nil && ap.rc.Success {
+		// as the upstream test does (vm_test.go Test_SharedFungibleToken): give the wallet a token balance, on both states
+		tokens := big.NewInt(int64(1000 + cc.r.Intn(1000))).Bytes()
+		for _, st := range []*appstate.AppState{A, B} {
+			st.State.SetContractValue(ap.rc.ContractAddress, []byte("b"), tokens)
+		}
+	}
 }
 
 func (cc *caseCtx) account(ti txInfo, run *txRun, ap applied) {
@@ -602,6 +632,13 @@ func (cc *caseCtx) account(ti txInfo, run *txRun, ap applied) {
 	}
 	c.Hit(fmt.Sprintf("%s:%s:%s:%s", cc.cs.Mode, eng, k, res))
 	c.Hit("desc:" + strings.SplitN(ti.Desc, " ", 2)[0] + ":" + res)
+	if res == "fail" && ap.rc != nil && ap.rc.Error != nil && !strings.HasPrefix(ti.Desc, "junk") {
+		e := ap.rc.Error.Error()
+		if len(e) > 40 {
+			e = e[:40]
+		}
+		c.Hit("why:" + strings.SplitN(ti.Desc, " ", 2)[0] + ":" + e)
+	}
 	ops := map[string]bool{}
 	for _, e := range run.tr.evs {
 		f := strings.Fields(e.Op)
@@ -760,7 +797,6 @@ func (cc *caseCtx) oneChain(snd *chainfx.Sender, ti txInfo, emptyGrowth *big.Int
 	ap := applied{rc: rc, fee: new(big.Int).Add(txFee, rc.GasCost)}
 	if rcStr(ap) != rcStr(bp) {
 		cc.fail("C15:recorder-diverges", fmt.Sprintf("%s: chain receipt %s vs recording Run %s", ti.Desc, rcStr(ap), rcStr(bp)))
-		return true
 	}
 	pre := make([]acct, len(ids.list))
 	post := make([]acct, len(ids.list))
@@ -841,6 +877,5 @@ func (cc *caseCtx) oneChain(snd *chainfx.Sender, ti txInfo, emptyGrowth *big.Int
 	c.Rep.Evaluations++
 	return false
 }
-
 
 var _ = bytes.Compare
